@@ -7,8 +7,10 @@ import (
 	"image"
 	"image/color"
 	"image/draw"
+	"os"
 	"path/filepath"
 	"reflect"
+	"strings"
 
 	"github.com/mandykoh/prism"
 
@@ -148,6 +150,18 @@ func sweepImages() map[string]image.Image {
 			nya.Y[nya.YOffset(x, y)], nya.Cb[nya.COffset(x, y)], nya.Cr[nya.COffset(x, y)], nya.A[nya.AOffset(x, y)] = uint8(x), uint8(x^y), uint8(255-y), uint8(y)
 		}
 	}
+	// every byte value in every channel position, alpha included - also pixels that are not valid
+	// premultiplied colours (channel > alpha, colour under alpha 0): legal image content.  Judged for
+	// the premultiplied targets, where conversion is a plain widening / narrowing of the stored values.
+	praw := image.NewRGBA(r)
+	r64raw := image.NewRGBA64(r)
+	for y := 0; y < 256; y++ {
+		for x := 0; x < 256; x++ {
+			praw.SetRGBA(x, y, color.RGBA{uint8(x), uint8(255 - x), uint8(x*7 + y), uint8(y)})
+			r64raw.SetRGBA64(x, y, color.RGBA64{uint16(x*257 + y), uint16(65535 - x*251), uint16(y*255 + x), uint16(y*257) ^ uint16(x&1)})
+		}
+	}
+	out["RGBA-raw"], out["RGBA64-raw"] = praw, r64raw
 	out["NRGBA"], out["RGBA"], out["YCbCr-a"], out["YCbCr-b"], out["CMYK"] = nr, pr, y1, y2, cm
 	out["RGBA64"], out["NRGBA64"], out["Gray16"], out["Alpha16"], out["NYCbCrA"] = r64, n64, g16, a16, nya
 	g := image.NewGray(image.Rect(0, 0, 256, 1))
@@ -171,6 +185,7 @@ func imageconvCmd(args []string) error {
 	tier := fs.String("tier", "quick", "")
 	seed := fs.Int64("seed", 1, "")
 	structOnly := fs.Bool("structonly", false, "only the structural part (bounds, origins, parallelism, identity)")
+	serial := fs.String("serial", "", "run the structural jobs one at a time, writing a marker line to this file before each (crash forensics)")
 	outName := fs.String("name", "c15.ndjson", "")
 	fs.Parse(args)
 	sink, done, err := newSink(filepath.Join(*outDir, *outName))
@@ -185,7 +200,7 @@ func imageconvCmd(args []string) error {
 	pars := []int{1, 2, 3, 7, 16}
 	// ---- pixel semantics over dense / exhaustive pixel contents ----
 	sw := sweepImages()
-	names := []string{"NRGBA", "RGBA", "YCbCr-a", "YCbCr-b", "CMYK", "RGBA64", "NRGBA64", "Gray16", "Alpha16", "NYCbCrA", "Gray", "Alpha", "Paletted"}
+	names := []string{"RGBA-raw", "RGBA64-raw", "NRGBA", "RGBA", "YCbCr-a", "YCbCr-b", "CMYK", "RGBA64", "NRGBA64", "Gray16", "Alpha16", "NYCbCrA", "Gray", "Alpha", "Paletted"}
 	type job struct {
 		name string
 		h    helper
@@ -197,6 +212,9 @@ func imageconvCmd(args []string) error {
 			break
 		}
 		for k, h := range helpers {
+			if strings.HasSuffix(n, "-raw") && h.dk == "NRGBA" {
+				continue // un-premultiplying an invalid colour is outside what draw.Draw and Convert agree on
+			}
 			jobs = append(jobs, job{n, h, pars[(i+k)%len(pars)]})
 		}
 	}
@@ -238,7 +256,9 @@ func imageconvCmd(args []string) error {
 	n := 0
 	for _, k := range kinds {
 		for ri, r := range rects {
-			for _, m := range [][4]int{{0, 0, 0, 0}, {1, 2, 3, 1}} {
+			// (ml, mt, mr, mb): whole image; margins all round; right of the parent's left edge with its last
+			// row the parent's last; full-width bands with rows below / above
+			for _, m := range [][4]int{{0, 0, 0, 0}, {1, 2, 3, 1}, {2, 0, 0, 0}, {0, 0, 0, 2}, {3, 1, 0, 0}} {
 				for hi, h := range helpers {
 					n++
 					par := []int{1, 2, 3, 7, 16, r.Dy() + 5}[(n+ri+hi)%6]
@@ -247,7 +267,23 @@ func imageconvCmd(args []string) error {
 			}
 		}
 	}
-	parallel(len(sjobs), func(i int) {
+	runStruct := parallel
+	if *serial != "" {
+		mf, err := os.Create(*serial)
+		if err != nil {
+			return err
+		}
+		defer mf.Close()
+		runStruct = func(n int, fn func(int)) {
+			for i := 0; i < n; i++ {
+				j := sjobs[i]
+				fmt.Fprintf(mf, "{\"job\":%d,\"helper\":%q,\"src\":%q,\"rect\":%q,\"margins\":\"%v\",\"par\":%d}\n", i, j.h.name, j.kind, j.r.String(), j.m, j.par)
+				mf.Sync()
+				fn(i)
+			}
+		}
+	}
+	runStruct(len(sjobs), func(i int) {
 		j := sjobs[i]
 		r := j.r
 		sub := (j.kind[:2] == "YC" || j.kind == "NYCbCrA") && j.kind != "YCbCr444"
